@@ -10,6 +10,7 @@
 #include "hcommon.h"
 #include "esl_alphabet.h"
 #include "esl_bitfield.h"
+#include "esl_keyhash.h"
 #include "esl_msa.h"
 #include "esl_sq.h"
 #include "esl_wuss.h"
@@ -26,6 +27,7 @@ const char *__asan_default_options(void)
 }
 
 static ESL_MSA *A, *B;
+static ESL_SQ  *Q;      /* a sequence kept from `fetch keep=1` for the esl_sq_* conversions */
 static ESL_ALPHABET *abc_rna, *abc_dna, *abc_amino;
 
 static void h_case_begin(void) { }
@@ -33,6 +35,7 @@ static void h_case_end(void)
 {
   if (A) esl_msa_Destroy(A); A = NULL;
   if (B) esl_msa_Destroy(B); B = NULL;
+  if (Q) esl_sq_Destroy(Q);  Q = NULL;
 }
 
 static ESL_ALPHABET *get_abc(const char *s)
@@ -141,6 +144,21 @@ static void set_opt_array(char ***arr, int sqalloc, int idx, char *val)   /* wha
   (*arr)[idx] = val;
 }
 
+static void add_sq(ESL_SQ *sq)      /* the observable content of a sequence object, in either mode */
+{
+  int x, dig = (sq->dsq != NULL), padok = 1;
+  o_add(" name="); o_str(sq->name); o_add(" acc="); o_str(sq->acc); o_add(" desc="); o_str(sq->desc);
+  o_add(" src="); o_str(sq->source);
+  o_fmt(" n=%" PRId64 " L=%" PRId64 " seq=", sq->n, sq->L);
+  if (dig) o_add(sq->n ? h_hex(sq->dsq + 1, esl_abc_dsqlen(sq->dsq)) : (esl_abc_dsqlen(sq->dsq) ? "LONG" : "-")); else o_str(sq->seq);
+  o_add(" ss="); o_str(sq->ss ? (dig ? sq->ss + 1 : sq->ss) : NULL);
+  for (x = 0; x < sq->nxr; x++) { o_add(" xr="); o_str(sq->xr_tag[x]); o_add(","); o_str(sq->xr[x] ? (dig ? sq->xr[x] + 1 : sq->xr[x]) : NULL); }
+  /* digital sequences keep a leading NUL before ss / xr so that they are indexed 1..n like dsq */
+  if (dig && sq->ss && sq->ss[0] != '\0') padok = 0;
+  for (x = 0; dig && x < sq->nxr; x++) if (sq->xr[x] && sq->xr[x][0] != '\0') padok = 0;
+  o_add(padok ? " pad=ok" : " pad=BAD");
+}
+
 static void out_status(int st)
 {
   if (h_exception_seen) h_out("%s exception", h_status(st));
@@ -178,6 +196,21 @@ static void out_ss(int st, const char *ss)
   if (h_exception_seen) o_add(" exception");
   if (st == eslOK) { o_add(" ss="); o_str(ss); }
   h_out("%s", ob);
+}
+
+/* representation assumption of the model of esl_msa_Compare: an optional per-sequence array is non-NULL iff at least one
+ * of its entries is non-NULL */
+static int repinv_arr(char **arr, int n)
+{
+  int i, any = 0;
+  if (!arr) return 1;
+  for (i = 0; i < n; i++) if (arr[i]) any = 1;
+  return any;
+}
+static int repinv(const ESL_MSA *m)
+{
+  return repinv_arr(m->sqacc, m->nseq) && repinv_arr(m->sqdesc, m->nseq) && repinv_arr(m->ss, m->nseq)
+      && repinv_arr(m->sa, m->nseq) && repinv_arr(m->pp, m->nseq);
 }
 
 static void h_op(void)
@@ -250,25 +283,32 @@ static void h_op(void)
     if (!m) { h_out("nomsa"); return; }
     h_out("%s", h_status(esl_msa_Validate(m, errbuf)));
   } else if (!strcmp(op, "fetch")) {      /* esl_sq_FetchFromMSA(): the ungapped sequence with its annotation */
-    const char *w = h_arg("w"); ESL_MSA *m = (w && !strcmp(w, "b")) ? B : A; ESL_SQ *sq = NULL; int st, x;
+    const char *w = h_arg("w"); ESL_MSA *m = (w && !strcmp(w, "b")) ? B : A; ESL_SQ *sq = NULL; int st;
     if (!m) { h_out("nomsa"); return; }
     st = esl_sq_FetchFromMSA(m, (int) h_argi("i", 0), &sq);
     o_reset(); o_fmt("%s", h_status(st));
-    if (st == eslOK) {
-      int dig = (sq->dsq != NULL);
-      o_add(" name="); o_str(sq->name); o_add(" acc="); o_str(sq->acc); o_add(" desc="); o_str(sq->desc);
-      o_add(" src="); o_str(sq->source);
-      o_fmt(" n=%" PRId64 " L=%" PRId64 " seq=", sq->n, sq->L);
-      if (dig) o_add(sq->n ? h_hex(sq->dsq + 1, esl_abc_dsqlen(sq->dsq)) : (esl_abc_dsqlen(sq->dsq) ? "LONG" : "-")); else o_str(sq->seq);
-      o_add(" ss="); o_str(sq->ss ? (dig ? sq->ss + 1 : sq->ss) : NULL);
-      for (x = 0; x < sq->nxr; x++) { o_add(" xr="); o_str(sq->xr_tag[x]); o_add(","); o_str(sq->xr[x] ? (dig ? sq->xr[x] + 1 : sq->xr[x]) : NULL); }
-      { int padok = 1;      /* digital sequences keep a leading NUL before ss / xr so that they are indexed 1..n like dsq */
-        if (dig && sq->ss && sq->ss[0] != '\0') padok = 0;
-        for (x = 0; dig && x < sq->nxr; x++) if (sq->xr[x] && sq->xr[x][0] != '\0') padok = 0;
-        o_add(padok ? " pad=ok" : " pad=BAD"); }
-    }
+    if (st == eslOK) add_sq(sq);
     h_out("%s", ob);
-    if (sq) esl_sq_Destroy(sq);
+    if (sq && h_argi("keep", 0)) { if (Q) esl_sq_Destroy(Q); Q = sq; }
+    else if (sq) esl_sq_Destroy(sq);
+  } else if (!strcmp(op, "sqdump")) {
+    if (!Q) { h_out("nosq"); return; }
+    o_reset(); o_add("ok"); add_sq(Q);
+    o_fmt(" abc=%s start=%" PRId64 " end=%" PRId64, !Q->abc ? "none" : Q->abc->type == eslRNA ? "rna" : Q->abc->type == eslDNA ? "dna" : Q->abc->type == eslAMINO ? "amino" : "other", Q->start, Q->end);
+    h_out("%s", ob);
+  } else if (!strcmp(op, "sqdigitize")) {
+    ESL_ALPHABET *abc = get_abc(h_arg("abc"));
+    if (!Q || !abc) { h_out("bad-op"); return; }
+    out_status(esl_sq_Digitize(abc, Q));
+  } else if (!strcmp(op, "sqtextize")) {
+    if (!Q) { h_out("bad-op"); return; }
+    out_status(esl_sq_Textize(Q));
+  } else if (!strcmp(op, "sqrevcomp")) {
+    if (!Q) { h_out("bad-op"); return; }
+    out_status(esl_sq_ReverseComplement(Q));
+  } else if (!strcmp(op, "sqdegen2x")) {
+    if (!Q) { h_out("bad-op"); return; }
+    out_status(esl_sq_ConvertDegen2X(Q));
   } else if (!strcmp(op, "swap")) {
     if (!B) { h_out("noswap"); return; }
     { ESL_MSA *t = A; A = B; B = t; h_out("ok"); }
@@ -334,6 +374,63 @@ static void h_op(void)
   } else if (!strcmp(op, "markfragold")) {
     if (!A) { h_out("bad-op"); return; }
     out_status(esl_msa_MarkFragments_old(A, h_argbits("t")));
+  } else if (!strcmp(op, "clr")) {
+    const char *f = h_arg("f"); char **p = NULL;
+    if (!A || !f) { h_out("bad-op"); return; }
+    if      (!strcmp(f, "name"))    p = &A->name;    else if (!strcmp(f, "desc"))    p = &A->desc;
+    else if (!strcmp(f, "acc"))     p = &A->acc;     else if (!strcmp(f, "au"))      p = &A->au;
+    else if (!strcmp(f, "ss_cons")) p = &A->ss_cons; else if (!strcmp(f, "sa_cons")) p = &A->sa_cons;
+    else if (!strcmp(f, "pp_cons")) p = &A->pp_cons; else if (!strcmp(f, "rf"))      p = &A->rf;
+    else if (!strcmp(f, "mm"))      p = &A->mm;
+    if (!p) { h_out("bad-op"); return; }
+    if (p == &A->name) esl_msa_SetName(A, NULL, -1); else if (p == &A->desc) esl_msa_SetDesc(A, NULL, -1);
+    else if (p == &A->acc) esl_msa_SetAccession(A, NULL, -1); else if (p == &A->au) esl_msa_SetAuthor(A, NULL, -1);
+    else { free(*p); *p = NULL; }
+    h_out("ok");
+  } else if (!strcmp(op, "clrcut")) {
+    int k = (int) h_argi("i", 0);
+    if (!A || k < 0 || k >= eslMSA_NCUTS) { h_out("bad-op"); return; }
+    A->cutset[k] = FALSE; h_out("ok");
+  } else if (!strcmp(op, "compare") || !strcmp(op, "cmpmand") || !strcmp(op, "cmpopt")) {
+    int st;
+    if (!A || !B) { h_out("bad-op"); return; }
+    if (!strcmp(op, "cmpopt") && A->nseq != B->nseq) { h_out("bad-op"); return; }
+    st = !strcmp(op, "compare") ? esl_msa_Compare(A, B) : !strcmp(op, "cmpmand") ? esl_msa_CompareMandatory(A, B) : esl_msa_CompareOptional(A, B);
+    h_out("%s repinv=%s", h_status(st), (repinv(A) && repinv(B)) ? "ok" : "BAD");
+  } else if (!strcmp(op, "checksum")) {
+    const char *w = h_arg("w"); ESL_MSA *m = (w && !strcmp(w, "b")) ? B : A; uint32_t sum = 0; int st;
+    if (!m) { h_out("nomsa"); return; }
+    st = esl_msa_Checksum(m, &sum);
+    h_out("%s sum=%08x", h_status(st), (unsigned) sum);
+  } else if (!strcmp(op, "hash") || !strcmp(op, "uniq")) {
+    const char *w = h_arg("w"); ESL_MSA *m = (w && !strcmp(w, "b")) ? B : A; int st;
+    if (!m) { h_out("nomsa"); return; }
+    if (!strcmp(op, "hash")) {
+      st = esl_msa_Hash(m);
+      if (st == eslOK) {         /* the index maps every name to its own row */
+        int i, idx;
+        if (!m->index) { h_out("ok-but-no-index"); return; }
+        for (i = 0; i < m->nseq; i++)
+          if (esl_keyhash_Lookup(m->index, m->sqname[i], -1, &idx) != eslOK || idx != i) { h_out("ok-but-bad-index"); return; }
+      } else if (m->index) { h_out("%s-but-index-kept", h_status(st)); return; }
+    } else st = esl_msa_CheckUniqueNames(m);
+    out_status(st);
+  } else if (!strcmp(op, "degen2x")) {
+    if (!A) { h_out("bad-op"); return; }
+    out_status(esl_msa_ConvertDegen2X(A));
+  } else if (!strcmp(op, "symconvert")) {
+    char *o = arg_str("old"), *n = arg_str("new");
+    if (!A || !o || !n) { free(o); free(n); h_out("bad-op"); return; }
+    out_status(esl_msa_SymConvert(A, o, n)); free(o); free(n);
+  } else if (!strcmp(op, "defwgts")) {
+    if (!A) { h_out("bad-op"); return; }
+    out_status(esl_msa_SetDefaultWeights(A));
+  } else if (!strcmp(op, "reasonablerf")) {
+    char *rf; int st;
+    if (!A) { h_out("bad-op"); return; }
+    rf = malloc((size_t) A->alen + 1); memset(rf, '?', (size_t) A->alen); rf[A->alen] = 0;
+    st = esl_msa_ReasonableRF(A, h_argbits("symfrac"), FALSE, rf);
+    out_ss(st == eslOK ? eslOK : st, rf); free(rf);
 
   /* ---------------- WUSS ---------------- */
   } else if (!strcmp(op, "wuss2ct")) {
